@@ -127,32 +127,73 @@ def run(ctx: Ctx, tier: str) -> Result:
     # ---------------- WALK
     col = p.func(FC + ".collect")
     loops = [l for l in t.nodes_in(col, ast.While)]
-    need(len(loops) == 1, "collect: frame loop not found")
-    lp = loops[0]
     calls = [c for c in t.calls_in(col) if pf in t.resolve_call(c, col).repo]
-    apps = [c for c in t.calls_in(col) if isinstance(c.func, ast.Attribute) and c.func.attr in ("append", "insert", "appendleft")]
-    cur = norm(lp.test.left) if isinstance(lp.test, ast.Compare) else None
-    ok = len(calls) == 1 and len(apps) == 1 and apps[0].func.attr == "append" and cur is not None and norm(lp.test) == "%s is not None" % cur
-    if ok:
-        bpf = t.bind_args(pf, calls[0])
-        frame_arg = norm(bpf.get(pf.params[3]))
-        adv = [n for n in ast.walk(lp) if isinstance(n, ast.Assign) and norm(n.targets[0]) == cur]
-        inits = [n for n in t.nodes_in(col, ast.Assign) if norm(n.targets[0]) == cur and not paths.within(p, n, lp)]
-        exits = [n for n in ast.walk(lp) if isinstance(n, (ast.Break, ast.Continue, ast.Return))]
-        st_call = paths.stmt_of(p, calls[0])
-        appended = norm(apps[0].args[0]) if apps[0].args else ""
-        ok = frame_arg == cur and len(adv) == 1 and norm(adv[0].value) == "%s.f_back" % cur and len(inits) == 1 and \
-            ctx.expand.expand(inits[0].value, col) == ["@self._FrameCollector__frame"] and not exits and \
-            isinstance(st_call, ast.Assign) and norm(st_call.targets[0]) == appended and \
-            all(paths.block_position(p, paths.stmt_of(p, x))[0] is lp for x in (calls[0], apps[0], adv[0].value)) and \
-            adv[0].lineno > apps[0].lineno > calls[0].lineno
-    rets = [r for r in t.nodes_in(col, ast.Return)]
-    ok = ok and len(rets) == 1 and isinstance(rets[0].value, ast.Tuple) and norm(rets[0].value.elts[0]) == norm(apps[0].func.value) \
-        and norm(rets[0].value.elts[1]) == col.params[1]
-    if ok:
-        res.ok("C02.WALK", {"walk": "frame = trigger frame; while frame: append(process(frame)); frame = frame.f_back"})
+    if not loops and len(calls) == 1:
+        # second shape: [process(frame, should_collect(index)) for index, frame in enumerate(self.<walk>())] with a generator
+        # method that yields the trigger frame and then every f_back
+        from .c05 import enumerate_index
+        cps_ = [c_ for c_ in t.nodes_in(col, ast.ListComp) if len(c_.generators) == 1 and c_.elt is calls[0] and not c_.generators[0].ifs]
+        okw = False
+        why_ = "no comprehension over the walked stack"
+        if len(cps_) == 1 and enumerate_index(cps_[0].generators[0]) is not None:
+            g0_ = cps_[0].generators[0]
+            idx_, cur_ = enumerate_index(g0_), norm(g0_.target.elts[1])
+            walkc = g0_.iter.args[0]
+            wf = t.resolve_call(walkc, col).repo if isinstance(walkc, ast.Call) else []
+            bpf = t.bind_args(pf, calls[0])
+            why_ = "the frame handed to _process_frame is not the walked one"
+            if len(wf) == 1 and norm(bpf.get(pf.params[3])) == cur_:
+                w_ = wf[0]
+                wl = [l for l in t.nodes_in(w_, ast.While)]
+                ys = list(t.nodes_in(w_, ast.Yield))
+                why_ = "the walk does not yield the trigger frame and then every f_back"
+                if len(wl) == 1 and len(ys) == 1 and isinstance(wl[0].test, ast.Compare):
+                    c0 = norm(wl[0].test.left)
+                    adv = [n for n in ast.walk(wl[0]) if isinstance(n, ast.Assign) and norm(n.targets[0]) == c0]
+                    inits = [n for n in t.nodes_in(w_, ast.Assign) if norm(n.targets[0]) == c0 and not paths.within(p, n, wl[0])]
+                    exits = [n for n in ast.walk(wl[0]) if isinstance(n, (ast.Break, ast.Continue, ast.Return))]
+                    okw = norm(wl[0].test) == "%s is not None" % c0 and ys[0].value is not None and norm(ys[0].value) == c0 and len(adv) == 1 and \
+                        norm(adv[0].value) == "%s.f_back" % c0 and adv[0].lineno > ys[0].lineno and len(inits) == 1 and \
+                        ctx.expand.expand(inits[0].value, w_) == ["@self._FrameCollector__frame"] and not exits
+                    # the index that decides whether variables are collected is the position of the frame in the walk
+                    sca = [norm(a_) for c_ in ast.walk(calls[0]) if isinstance(c_, ast.Call) and norm(c_.func).endswith("should_collect_vars") for a_ in c_.args]
+                    okw = okw and sca == [idx_]
+            rets = [r for r in t.nodes_in(col, ast.Return)]
+            first = rets[0].value.elts[0] if len(rets) == 1 and isinstance(rets[0].value, ast.Tuple) and len(rets[0].value.elts) == 2 else None
+            returned = first is cps_[0] or (isinstance(first, ast.Name) and any(k == "assign" and b_[1] is cps_[0] for k, b_ in t.local_bindings(col, first.id)))
+            okw = okw and returned and norm(rets[0].value.elts[1]) == col.params[1]
+        if okw:
+            res.ok("C02.WALK", {"walk": "[process(frame) for index, frame in enumerate(walk())]; walk yields the trigger frame, then every f_back"})
+        else:
+            res.fail(Finding("C02.WALK", col.qname, cps_[0] if cps_ else "<frame walk>", col.loc(), "the stack is not walked from the trigger frame by f_back with exactly one StackFrame per frame, in order (%s)" % why_))
+        loops = None
     else:
-        res.fail(Finding("C02.WALK", col.qname, lp, col.loc(lp), "the stack is not walked from the trigger frame by f_back with exactly one appended StackFrame per frame, in order"))
+        need(len(loops) == 1, "collect: frame loop not found")
+    lp = loops[0] if loops else None
+    if lp is not None:
+        apps = [c for c in t.calls_in(col) if isinstance(c.func, ast.Attribute) and c.func.attr in ("append", "insert", "appendleft")]
+        cur = norm(lp.test.left) if isinstance(lp.test, ast.Compare) else None
+        ok = len(calls) == 1 and len(apps) == 1 and apps[0].func.attr == "append" and cur is not None and norm(lp.test) == "%s is not None" % cur
+        if ok:
+            bpf = t.bind_args(pf, calls[0])
+            frame_arg = norm(bpf.get(pf.params[3]))
+            adv = [n for n in ast.walk(lp) if isinstance(n, ast.Assign) and norm(n.targets[0]) == cur]
+            inits = [n for n in t.nodes_in(col, ast.Assign) if norm(n.targets[0]) == cur and not paths.within(p, n, lp)]
+            exits = [n for n in ast.walk(lp) if isinstance(n, (ast.Break, ast.Continue, ast.Return))]
+            st_call = paths.stmt_of(p, calls[0])
+            appended = norm(apps[0].args[0]) if apps[0].args else ""
+            ok = frame_arg == cur and len(adv) == 1 and norm(adv[0].value) == "%s.f_back" % cur and len(inits) == 1 and \
+                ctx.expand.expand(inits[0].value, col) == ["@self._FrameCollector__frame"] and not exits and \
+                isinstance(st_call, ast.Assign) and norm(st_call.targets[0]) == appended and \
+                all(paths.block_position(p, paths.stmt_of(p, x))[0] is lp for x in (calls[0], apps[0], adv[0].value)) and \
+                adv[0].lineno > apps[0].lineno > calls[0].lineno
+        rets = [r for r in t.nodes_in(col, ast.Return)]
+        ok = ok and len(rets) == 1 and isinstance(rets[0].value, ast.Tuple) and norm(rets[0].value.elts[0]) == norm(apps[0].func.value) \
+            and norm(rets[0].value.elts[1]) == col.params[1]
+        if ok:
+            res.ok("C02.WALK", {"walk": "frame = trigger frame; while frame: append(process(frame)); frame = frame.f_back"})
+        else:
+            res.fail(Finding("C02.WALK", col.qname, lp, col.loc(lp), "the stack is not walked from the trigger frame by f_back with exactly one appended StackFrame per frame, in order"))
     init = p.cls(FC).lookup("__init__")
     st = t.field_stores(p.cls(FC), "__frame")
     snap = p.func(SNAP + "._process_action")
@@ -190,7 +231,14 @@ def run(ctx: Ctx, tier: str) -> Result:
             res.fail(Finding("C02.TYPE", sc.qname, CT, sc.loc(), "frame_type is not read from the action config with default single_frame"))
     else:
         res.fail(Finding("C02.TYPE", sc.qname, "<frame_type>", sc.loc(), "should_collect_vars does not consult the frame_type setting"))
-    if calls:
+    if calls and lp is None:
+        # comprehension shape: the index was checked to be enumerate()'s with the walk (C02.WALK)
+        ia = ctx.expand.expand(t.bind_args(pf, calls[0]).get(pf.params[4]), col)
+        if len(ia) == 1 and "should_collect_vars(" in ia[0]:
+            res.ok("C02.TYPE", {"frame index": "position in the walk (enumerate)"})
+        else:
+            res.fail(Finding("C02.TYPE", col.qname, calls[0], col.loc(calls[0]), "which frames carry variables is not decided by should_collect_vars(index)"))
+    elif calls:
         ia = ctx.expand.expand(t.bind_args(pf, calls[0]).get(pf.params[4]), col)
         if len(ia) == 1 and "should_collect_vars(len(" in ia[0]:
             inner = t.bind_args(pf, calls[0]).get(pf.params[4])
@@ -367,7 +415,11 @@ def run(ctx: Ctx, tier: str) -> Result:
         lps = [l for l in t.nodes_in(pl, ast.For)]
         cnt = norm(nl[0].args[0].args[0]) if isinstance(nl[0].args[0], ast.Call) and norm(nl[0].args[0].func) == "str" and nl[0].args[0].args else None
         incs = [n for n in t.nodes_in(pl, ast.AugAssign) if cnt and norm(n.target) == cnt]
-        if len(lps) == 1 and cnt is not None:
+        cps_ = [c_ for c_ in t.nodes_in(pl, ast.ListComp) if len(c_.generators) == 1 and paths.within(p, nl[0], c_)]
+        if not lps and len(cps_) == 1 and cnt is not None and enumerate_index(cps_[0].generators[0]) == cnt:
+            g0_ = cps_[0].generators[0]
+            okl = norm(nl[0].args[1]) == norm(g0_.target.elts[1]) and ctx.expand.expand(g0_.iter.args[0], pl) in (["tuple(%s)" % P(pl, 2)], ["list(%s)" % P(pl, 2)])
+        elif len(lps) == 1 and cnt is not None:
             if enumerate_index(lps[0]) == cnt:
                 elem = norm(lps[0].target.elts[1])
                 src = ctx.expand.expand(lps[0].iter.args[0], pl)
